@@ -186,11 +186,15 @@ impl MutationParser {
             name = name_pair.next().unwrap().as_str().to_string();
         }
 
-        entity.name = name;
+        //the namespace is not case sensitive: the rights and the system entities are checked against the name of the data model
+        let entity_model = data_model.get_entity(&name)?;
+        if entity.alias.is_none() && name != entity_model.name {
+            //the result is still returned under the name as it is written
+            entity.alias = Some(name);
+        }
+        entity.name = entity_model.name.clone();
         entity.depth =
             Self::parse_entity_internals(&mut entity, data_model, entity_pairs, variables)?;
-
-        let entity_model = data_model.get_entity(&entity.name)?;
 
         entity.short_name = entity_model.short_name.clone();
         entity.enable_full_text = entity_model.enable_full_text;
@@ -434,7 +438,7 @@ impl MutationParser {
             match entity_pair.as_rule() {
                 Rule::entity_ref => {
                     let mut entity = EntityMutation::new();
-                    entity.name = name.clone();
+                    entity.name = data_model.get_entity(name)?.name.clone();
                     let var_pair = entity_pair.into_inner();
                     let adepth =
                         Self::parse_entity_internals(&mut entity, data_model, var_pair, variables)?;
@@ -464,7 +468,7 @@ impl MutationParser {
         let mut entity = EntityMutation::new();
 
         match &field.field_type {
-            FieldType::Entity(e) => entity.name = e.clone(),
+            FieldType::Entity(e) => entity.name = data_model.get_entity(e)?.name.clone(),
             _ => {
                 return Err(Error::InvalidFieldType(
                     mutation_field.name.to_string(),
